@@ -508,6 +508,10 @@ pub fn export_case(coll: &str, n: usize, order: &str, expired_every: usize, seed
     if live > 0 && (first.is_none() || first > last) {
         return Err(Fail::new("export:wrong-order", "export is not in key order".to_string()));
     }
+    // capacity and allocation size are C19's business, and C19 speaks of the tree
+    if coll != "tree" {
+        return Ok(());
+    }
     if cap > 4 * n + 64 {
         return Err(Fail::new("export:capacity", format!("into_ordered_vec returned capacity {} for {} stored entries (limit 4n+64 = {})", cap, n, 4 * n + 64)));
     }
@@ -1462,6 +1466,8 @@ pub fn replay(cfg: &Cfg, rep: &mut Report) {
             } else if l.starts_with("#seg-bulk") {
                 let m = SMon::from_list(&mon);
                 seg_suites::seg_bulk_case(n, val("pattern").parse().unwrap_or(0), &m, rep, 0).map_err(|e| e.0)
+            } else if l.starts_with("#dup-held") {
+                crate::dup_held::run_line(l, rep)
             } else if l.starts_with("#exp-types") {
                 crate::exp_types::case_from_line(l, rep)
             } else if l.starts_with("#big") {
